@@ -12,8 +12,9 @@ CONSTANTS H, W,     \* grid size
           N,        \* neighbourhood: 4 | 8
           MUT       \* "none" | negative twins "nopass2" | "noelse" | "localreplace" | "alwaysnew"
 
-VARIABLES data, out, uid, pass, y, x
-vars == <<data, out, uid, pass, y, x>>
+VARIABLES data, out, uid, pass, y, x,
+          comps      \* ghost: Components of `data`, fixed at Init (never read by the algorithm actions)
+vars == <<data, out, uid, pass, y, x, comps>>
 
 G == [H |-> H, W |-> W, v |-> data, conn |-> N, mut |-> MUT]
 
@@ -21,6 +22,7 @@ Init == /\ data \in [0..H-1 -> [0..W-1 -> VALS]]
         /\ out = [r \in 0..H-1 |-> [c \in 0..W-1 |-> 0]]      \* np.zeros_like(data)
         /\ uid = 1
         /\ pass = "p1" /\ y = 0 /\ x = 0
+        /\ comps = Components(G)
 
 Last == y = H - 1 /\ x = W - 1
 Advance(nextpass) ==
@@ -33,14 +35,14 @@ Label1 ==
   /\ pass = "p1"
   /\ LET s == Label1Cell(G, [out |-> out, uid |-> uid], y, x) IN out' = s.out /\ uid' = s.uid
   /\ Advance("p2")
-  /\ UNCHANGED data
+  /\ UNCHANGED <<data, comps>>
 
 \* second pass: pairwise merging of all labels seen among the matching neighbours
 Merge2 ==
   /\ pass = "p2"
   /\ out' = Merge2Cell(G, out, y, x)
   /\ Advance("done")
-  /\ UNCHANGED <<data, uid>>
+  /\ UNCHANGED <<data, uid, comps>>
 
 Next == Label1 \/ Merge2
 Spec == Init /\ [][Next]_vars
@@ -55,7 +57,7 @@ TypeOK == /\ pass \in {"p1", "p2", "done"} /\ y \in 0..H-1 /\ x \in 0..W-1
           /\ \A p \in GCells(G) : out[p[1]][p[2]] \in (0..H*W) \cup {NANV}
 
 \* the property: same label <=> same component
-PartitionIsComponents == Done => LabelClasses(G, out) = Components(G)
+PartitionIsComponents == Done => LabelClasses(G, out) = comps
 LabelsPositive == Done => \A p \in GValid(G) : out[p[1]][p[2]] > 0
 NaNKept == Done => \A p \in GCells(G) : (out[p[1]][p[2]] = NANV) <=> (GVal(G, p) = NANV)
 
@@ -67,9 +69,10 @@ PrefixLabelled ==
     IF pass = "p1" /\ Idx(p) >= Cur THEN o = 0
     ELSE (IF GVal(G, p) = NANV THEN o = NANV ELSE o > 0 /\ o < uid)
 \* never joins two components: cells with one label always lie in one component
+CompOf(p) == CHOOSE C \in comps : p \in C
 NeverJoinsComponents ==
   \A p \in GValid(G) : out[p[1]][p[2]] > 0 =>
-     \A q \in GValid(G) : out[q[1]][q[2]] = out[p[1]][p[2]] => q \in Comp(G, p)
+     \A q \in GValid(G) : out[q[1]][q[2]] = out[p[1]][p[2]] => q \in CompOf(p)
 \* second pass: behind the scan position every pair of adjacent equal-valued cells is merged
 MergedBehind ==
   pass \in {"p2", "done"} =>
